@@ -324,6 +324,7 @@ class MHist(Monitor):
         self.top = {}         # arn -> [last entered top-level state, last exited top-level output text]
         self.flagged = set()
         self.failure_seen = {}
+        self.bal = {}
 
     def _flag(self, w, arn, kind, detail, **extra):
         if (arn, kind) in self.flagged:
@@ -350,6 +351,11 @@ class MHist(Monitor):
             for sname, sarn in w.machines.items():
                 if rec is not None and rec.get("stateMachineArn") == sarn:
                     sm = w.sc["machines"][sname]
+            if sm is None:
+                # no record (as for an EXPRESS execution): the machine is named in the execution ARN
+                parts = str(arn).split(":")
+                if len(parts) >= 8 and parts[5] == "execution" and parts[6] in w.sc.get("machines", {}):
+                    sm = w.sc["machines"][parts[6]]
             mtype = (sm or {}).get("type", "STANDARD")
             if mtype == "EXPRESS":
                 self._flag(w, arn, "express_has_history", "an EXPRESS execution has %d history events" % n)
@@ -377,6 +383,16 @@ class MHist(Monitor):
                     self._flag(w, arn, "second_started", "ExecutionStarted at position %d" % (i + 1))
                 if t in ("ExecutionSucceeded", "ExecutionFailed"):
                     self.term[arn] = i
+                # a task's completion is logged after its scheduling: at every prefix completions never outnumber schedulings
+                bal = self.bal.setdefault(arn, {"Task": 0, "LambdaFunction": 0})
+                for fam in ("Task", "LambdaFunction"):
+                    if t == fam + "Scheduled":
+                        bal[fam] += 1
+                    elif t in (fam + "Succeeded", fam + "Failed", fam + "TimedOut"):
+                        bal[fam] -= 1
+                        if bal[fam] < 0:
+                            bal[fam] = 0
+                            self._flag(w, arn, "completion_without_scheduled", "%s at position %d without a preceding %sScheduled" % (t, i + 1, fam), what=t)
                 if t and ("Failed" in t or "TimedOut" in t or "Aborted" in t):
                     self.failure_seen[arn] = True
                 if t and t.endswith("StateEntered"):
@@ -435,7 +451,7 @@ class MHist(Monitor):
     def state(self):
         return [sorted((a, n) for a, n in self.checked.items()), sorted(self.term.items()),
                 sorted((a, sorted(o.items())) for a, o in self.open.items()), sorted((a, v) for a, v in self.top.items()),
-                sorted(self.failure_seen)]
+                sorted(self.failure_seen), sorted((a, sorted(b.items())) for a, b in self.bal.items())]
 
 # ------------------------------------------------------------------------------------------------------
 class MViews(Monitor):
